@@ -254,6 +254,10 @@ def run(ctx):
 
     # ---- R7.5 "rich enough" clause of the statement: counting bound shared with C02 (R2.2)
     ctx.attempt(_c02.rank_rules, ctx, lib, gl, only_stiffness=True)
+    # ... and the exact rank of the stiffness of two elements sharing a face (R2.3 shared; the counting bound is only necessary:
+    # a 20-node brick with 2 x 2 x 2 points passes it and keeps three spurious modes in a two-element column).  Quick tier: the
+    # types up to 20 nodes; thorough: all.
+    ctx.attempt(_c02.patch_rank, ctx, lib, gl, None if ctx.tier == "thorough" else [n for n in lib.names((2, 3)) if lib.get(n).nPe <= 20], ("thermal-K", "elastic-K"))
     weights_enter_rule(ctx)
     # "lengths, areas, volumes ... are exact": no tolerance-gated shortcut between the tables and the measures
     from ..shared import approx_guard_rule, setter_discipline_rule
